@@ -42,6 +42,10 @@ func runCase(cs *Case) result {
 		Args:  append([]string(nil), cs.Args...),
 		Argv0: "awk",
 	}
+	if cs.Sp != nil {
+		cfg.Stdin = strings.NewReader(cs.Sp.Stdin)
+		cfg.Vars = append([]string(nil), cs.Sp.Vars...)
+	}
 	res := vh.ExecProg(prog, cfg)
 	r := result{ok: res.Panic == "", res: res, errd: res.Err != "", status: res.Status}
 	r.evs = parseTrace(res.Out)
@@ -90,6 +94,11 @@ func runC11(c *vh.Ctx) {
 		for name, recs := range cs.Files {
 			os.WriteFile(name, []byte(joinRecs(recs)), 0o644)
 		}
+		if cs.Sp != nil {
+			for name, content := range cs.Sp.Raw {
+				os.WriteFile(name, []byte(content), 0o644)
+			}
+		}
 		cases = append(cases, cs)
 	} else {
 		cases = append(cases, corpusCases(pool)...)
@@ -109,6 +118,19 @@ func runC11(c *vh.Ctx) {
 	}
 	for i := 0; g != nil && i < c.N(1500, 25000); i++ {
 		cases = append(cases, g.mixedCase())
+	}
+	if g != nil {
+		// special variables assigned by operands / -v / the program (special.go); raw files of their own
+		raw := makeRawPool(g)
+		for name, content := range raw {
+			if err := os.WriteFile(name, []byte(content), 0o644); err != nil {
+				panic(err)
+			}
+		}
+		cases = append(cases, spCorpus(raw)...)
+		for i := 0; i < c.N(1200, 15000); i++ {
+			cases = append(cases, g.specialCase(raw))
+		}
 	}
 	if g != nil {
 		// long runs: inputs of 1500-5000 records over 3-4 files
@@ -140,7 +162,12 @@ func runC11(c *vh.Ctx) {
 		c.OracleCase()
 		c.Hit("class:" + cs.Class)
 		hitCase(c, cs, r)
-		key := cs.leanReq() + "|" + fmt.Sprint(cs.Variant)
+		key := ""
+		if cs.Sp != nil {
+			key = cs.specialKey()
+		} else {
+			key = cs.leanReq() + "|" + fmt.Sprint(cs.Variant)
+		}
 		c.Eval(key, nontrivial(cs, r))
 		if i%997 == 0 && !strings.HasPrefix(cs.Class, "long") {
 			c.Sample(map[string]interface{}{"class": cs.Class, "args": cs.Args, "awk": cs.Awk, "trace": canonEvents(r.evs)})
@@ -229,6 +256,9 @@ func dropStatus(a string) string {
 }
 
 func nontrivial(cs *Case, r result) bool {
+	if cs.Sp != nil {
+		return strings.Count(r.res.Out, "\nT") >= 1 && len(spFeatures(cs)) > 0
+	}
 	n := 0
 	for _, e := range r.evs {
 		if e.Kind == "E" || e.Kind == "P" {
@@ -264,6 +294,8 @@ func features(cs *Case) map[string]bool {
 				f["argv-edit"] = true
 			case "cl":
 				f["op:cl"] = true
+			case "sf", "sfs":
+				f["op:"+o.K] = true
 			case "c", "l", "i":
 				f["op:"+o.K] = true
 				walk(o.Body, depth+1)
@@ -297,6 +329,8 @@ func features(cs *Case) map[string]bool {
 			f["arg:empty"] = true
 		case a == "-":
 			f["arg:dash"] = true
+		case strings.HasPrefix(a, "FILENAME=") || strings.HasPrefix(a, "FS="):
+			f["arg:assign-special"] = true
 		case strings.Contains(a, "="):
 			f["arg:assign"] = true
 		default:
@@ -314,6 +348,9 @@ func features(cs *Case) map[string]bool {
 }
 
 func hitCase(c *vh.Ctx, cs *Case, r result) {
+	for k := range spFeatures(cs) {
+		c.Hit("sp:" + k)
+	}
 	for k := range features(cs) {
 		c.Hit("has:" + k)
 	}
